@@ -15,6 +15,8 @@ Line-protocol driver for C16.
                  not a strict weak order, `slices.SortFunc`'s result is unspecified and res=unspecified on both sides
 (a') pfree <grouped> <vulns> <oldreqs> <table> g<GOMAXPROCS>r<repetition>
     the real ComputePatches ran ungated under the Go scheduler; reply: spec=<patches> order=<0|1>
+(a'') pstrat <grouped> <vulns> <ranks> <table> <universe> <tag>     (harness/cmd/c16gen/strat.go: the real relax / override strategies)
+    table = task=E | task=<patch>: every attempt of the closure run in isolation; reply: spec=<patches> order=<0|1>
 (b) cache <keys> <acts>
       keys = k,k,…   key of caller 0,1,…          acts = L<t> | P<t>:<v|err> | S<k=v;…|-> | G   (comma separated)
     reply: ret=<ok<v>|err|stuck,…> f=<nfetch 0>,<nfetch 1> cls=<r|w|f per L> maps=<k=v;…/…>
@@ -133,6 +135,55 @@ def handleFree (g vs rq tb : String) : String :=
   | some (grouped, eco), some vulns, some oldReqs, some tbl => specPart eco (patchFnOf oldReqs vulns tbl) grouped vulns
   | _, _, _, _ => "bad-op"
 
+/-! ### the real strategies (pstrat): the table gives every attempt's patch directly -/
+
+def updOf (s : String) : Option Upd :=
+  match s.splitOn ":" with
+  | [n, f, t, tr, al] =>
+    match strOf n, strOf f, strOf t, boolOf? tr, strOf al with
+    | some n, some f, some t, some tr, some al => some ⟨n, f, t, tr, al⟩
+    | _, _, _, _, _ => none
+  | _ => none
+
+def patchOf (s : String) : Option Patch :=
+  match s.splitOn "~" with
+  | [us, fx, it] =>
+    match (listOf us ",").mapM updOf, strsOf fx ",", strsOf it "," with
+    | some us, some fx, some it => some ⟨us, fx, it⟩
+    | _, _, _ => none
+  | _ => none
+
+def patchTableOf (s : String) : Option (List (Task × Option Patch)) :=
+  (listOf s "|").mapM fun e =>
+    match e.splitOn "=" with
+    | [k, v] =>
+      match strsOf k "." with
+      | none => none
+      | some task => if v = "E" then some (task, none) else (patchOf v).map (fun p => (task, some p))
+    | _ => none
+
+def ranksOf (s : String) : Option (List (Str × Nat)) :=
+  (listOf s ",").mapM fun e =>
+    match e.splitOn ":" with
+    | [v, r] => match strOf v, r.toNat? with
+      | some v, some r => some (v, r)
+      | _, _ => none
+    | _ => none
+
+/-- pstrat: the specification is the closure of the initial attempts over the table of ISOLATED attempts, sorted and compacted with
+    the model of Patch.Compare; target versions are ranked by the table the generator computed with the ecosystem's own comparator -/
+def handleStrat (g vs rk tb : String) : String :=
+  match boolOf? g, strsOf vs ",", ranksOf rk, patchTableOf tb with
+  | some grouped, some vulns, some ranks, some tbl =>
+    let parse : Str → Option Nat := fun v => (ranks.find? (fun e => e.1 = v)).map (·.2)
+    let vc := verCmp parse (fun a b => cmpInt a b)
+    let fn : Task → Option Patch := fun t => (tbl.find? (fun e => e.1 = t)).bind (·.2)
+    let sf := fifo (outCP fn) (spawnCP fn grouped) 4096 (initCP vulns)
+    let vtos := sf.collected.flatMap (fun p => p.updates.map (·.vto))
+    let order := vtos.all (fun v => (parse v).isSome) || vtos.all (fun v => (parse v).isNone)
+    if sf.pending.isEmpty then s!"spec={showPatches (sortCompact vc sf.collected)} order={boolStr order}" else "spec=nonterminating order=0"
+  | _, _, _, _ => "bad-op"
+
 /-! ### cache -/
 open Scalibr.Cache in
 def mapOf (s : String) : Option (Cache.K → Option Cache.V) :=
@@ -197,6 +248,7 @@ def handle (line : String) : String :=
   match line.splitOn " " with
   | ["patches", g, vs, rq, tb, sc] => handlePatches g vs rq tb sc
   | ["pfree", g, vs, rq, tb, _] => handleFree g vs rq tb
+  | ["pstrat", g, vs, rk, tb, _, _] => handleStrat g vs rk tb
   | ["cache", ks, as] => handleCache ks as
   | _ => "bad-op"
 
